@@ -147,7 +147,9 @@ def ensure_facts(config='q'):
         olds = sorted((f for f in os.listdir(CACHE) if f.startswith(f'facts-{config}-') and f.endswith('.jsonl')),
                       key=lambda f: os.path.getmtime(os.path.join(CACHE, f)))
         for f in olds[:-int(os.environ.get('VERIF_CACHE_KEEP', '3')):]:
-            os.remove(os.path.join(CACHE, f))
+            # a file touched in the last half hour may be in use by a check running side by side (hits refresh the mtime)
+            if time.time() - os.path.getmtime(os.path.join(CACHE, f)) > 1800:
+                os.remove(os.path.join(CACHE, f))
         dt = time.time() - t0
         _log(f"done in {dt:.0f}s: {hdr['n_bodies']} bodies, {hdr['n_focus']} with full facts")
         return out, th, dt
